@@ -7,6 +7,7 @@ CONSTANTS
   MaxFaults = 1
   MaxEnv = 2
   ForeignAt = "none"
+  RenderFails = FALSE
   FailKinds = {"fnerror1", "fatal2"}
 VIEW view
 ACTION_CONSTRAINT Emit
